@@ -1,12 +1,14 @@
 #!/bin/sh
-# usage: confirm_mutant.sh <Cxx> <mK>   (reads /tmp/seeded-<Cxx>/<mK>, writes /verif/seeded/<Cxx>-<mK>/)
+# usage: confirm_mutant.sh <Cxx> <mK> [src-root [out-tag]]
+#   reads <src-root>-<Cxx>/<mK> (default /tmp/seeded), writes /verif/seeded/<Cxx>-<out-tag><mK>/
 # Confirms in a scratch worktree: suite passes with the patch, demo fails
 # with it and passes without it.
 set -u
 P=$1; M=$2
-SRC=/tmp/seeded-$P/$M
-OUT=/verif/seeded/$P-$M
-WT=/tmp/confirm-$P-$M
+ROOT=${3:-/tmp/seeded}; TAG=${4:-}
+SRC=$ROOT-$P/$M
+OUT=/verif/seeded/$P-$TAG$M
+WT=/tmp/confirm-$P-$TAG$M
 mkdir -p $OUT
 cp $SRC/patch.diff $SRC/demo.py $OUT/ 2>/dev/null
 git -C /repo worktree add --detach $WT HEAD -q || exit 2
@@ -19,12 +21,11 @@ PYTHONPATH=$WT timeout 1200 /venv/bin/python -m pytest -q -p no:cacheprovider -x
 tail -1 $OUT/suite.log > $OUT/suite_tail.txt
 cd /
 git -C /repo worktree remove --force $WT
-python3 - "$P" "$M" "$RC_WO" "$RC_W" "$RC_S" <<'PY'
+python3 - "$P" "$M" "$RC_WO" "$RC_W" "$RC_S" "$SRC" "$OUT" <<'PY'
 import json,sys,os
-P,M,wo,w,s=sys.argv[1:6]
-out=f'/verif/seeded/{P}-{M}'
+P,M,wo,w,s,src,out=sys.argv[1:8]
 meta={}
-try: meta=json.load(open(f'/tmp/seeded-{P}/{M}/meta.json'))
+try: meta=json.load(open(f'{src}/meta.json'))
 except Exception as e: meta={'error':str(e)}
 meta['confirmed']={'demo_rc_without_patch':int(wo),'demo_rc_with_patch':int(w),'suite_rc_with_patch':int(s),
   'suite_tail':open(out+'/suite_tail.txt').read().strip(),
